@@ -224,6 +224,12 @@ def rule_load(r):
     for c in opens:
         r.check(pf.unparse(c.args[0]) == "self.dllpath", F, "DllModel._load_dll", pf.unparse(c), c.lineno,
                 "opens exactly the published path")
+        mode = [pf.unparse(k.value) for k in c.keywords if k.arg == "mode"] + [pf.unparse(a) for a in c.args[1:2]]
+        okm = all(m_.split(".")[-1] in ("DEFAULT_MODE", "RTLD_LOCAL") for m_ in mode)
+        r.check(okm, F, "DllModel._load_dll", "load mode %s" % (mode or ["default"]), c.lineno,
+                "symbols of one model library stay private to it" if okm else
+                "the library is opened with %s: its non-static functions (Iq, form_volume ... have the same names in every model) become "
+                "process-wide, and libraries loaded afterwards - another version, another precision - call the first one's functions" % mode)
     # no other writer of files in the cache directory under a final name: every open(..., 'w') in kerneldll
     for qual, fn in sorted(mod.functions.items()):
         for c in pf.calls_in(fn):
@@ -244,6 +250,7 @@ RULES = [
     ("R-C18-publish", 8, "cache path published only by rename after a successful compile", rule_publish),
     ("R-C18-owner", 4, "no library code outside make_dll removes or replaces a published cache path", _x3.rule_c18_owner),
     ("R-C18-key", 8, "the cache name two processes agree on is a CRC of the whole source text (C17's key rule): different sources never share a published name by construction of a weaker tag", _key),
+    ("R-C18-lock", 1, "the SasView wrapper's lazy build happens under calculation_lock", _x3.rule_c18_lock),
     ("R-C18-load", 4, "loader opens only the published path", rule_load),
 ]
 from .. import refs as _refs
